@@ -20,7 +20,9 @@ func main() {
 	case "dev":
 		devMain(os.Args[2:])
 	case "check":
-		os.Exit(checkMain(os.Args[2:]))
+		rc := checkMain(os.Args[2:])
+		cleanupScratch()
+		os.Exit(rc)
 	default:
 		fmt.Fprintln(os.Stderr, "unknown command", os.Args[1])
 		os.Exit(2)
